@@ -29,6 +29,8 @@ type KV struct {
 	Str      []byte   // type 0
 	Items    [][]byte // list/set members; hash: field,value,…; zset: member,score,…
 	IntEnc   bool     // type 0: write the value int-encoded when it fits
+	Raw      []byte     // other types (e.g. 15 stream): the value bytes as they go on disk
+	Ops      [][]string // other types: the native commands the value expands to (monitor's expectation)
 }
 
 func EncLen(n uint64) []byte {
@@ -154,7 +156,10 @@ func BuildRDB(kvs []KV, o Opts) []byte {
 				b.Write(EncStr(it))
 			}
 		default:
-			panic("vfc20: unsupported type")
+			if kv.Raw == nil {
+				panic("vfc20: unsupported type")
+			}
+			b.Write(kv.Raw)
 		}
 	}
 	b.WriteByte(0xFF)
@@ -598,8 +603,48 @@ func ValueBytes(kv KV) []byte {
 		for _, it := range kv.Items {
 			b.Write(EncStr(it))
 		}
+	default:
+		b.Write(kv.Raw)
 	}
 	return b.Bytes()
+}
+
+// lpInt / lpStr: one listpack element (small unsigned integer / short string) with its back-length
+func lpInt(v int) []byte { return []byte{byte(v & 0x7f), 1} }
+func lpStr(s string) []byte {
+	return append(append([]byte{0x80 | byte(len(s))}, s...), byte(1+len(s)))
+}
+
+// SmallStream: a stream value in the RDB_TYPE_STREAM_LISTPACKS (15) layout — one
+// listpack (master id 1000-0, master entry with the single field "f", two
+// SAMEFIELDS entries 1000-1 {f v1} and 1005-0 {f v2}), length 2, last id
+// 1005-0, no consumer groups — and the commands it expands to for a 7.x target.
+func SmallStream(key string) KV {
+	var lp []byte
+	for _, e := range [][]byte{lpInt(2), lpInt(0), lpInt(1), lpStr("f"), lpInt(0),
+		lpInt(2), lpInt(0), lpInt(1), lpStr("v1"), lpInt(4),
+		lpInt(2), lpInt(5), lpInt(0), lpStr("v2"), lpInt(4)} {
+		lp = append(lp, e...)
+	}
+	body := make([]byte, 6, 6+len(lp)+1)
+	binary.LittleEndian.PutUint32(body[0:], uint32(6+len(lp)+1))
+	binary.LittleEndian.PutUint16(body[4:], 15)
+	body = append(append(body, lp...), 0xFF)
+	master := make([]byte, 16)
+	binary.BigEndian.PutUint64(master[0:], 1000)
+	var raw bytes.Buffer
+	raw.Write(EncLen(1))
+	raw.Write(EncStr(master))
+	raw.Write(EncStr(body))
+	raw.Write(EncLen(2))    // length
+	raw.Write(EncLen(1005)) // last id ms
+	raw.Write(EncLen(0))    // last id seq
+	raw.Write(EncLen(0))    // consumer groups
+	return KV{Key: []byte(key), Type: 15, Raw: raw.Bytes(), Ops: [][]string{
+		{"xadd", key, "1000-1", "f", "v1"},
+		{"xadd", key, "1005-0", "f", "v2"},
+		{"xsetid", key, "1005-0", "ENTRIESADDED", "2", "MAXDELETEDID", "0-0"},
+	}}
 }
 
 // DumpPayload: what DUMP/RESTORE carry for the value.
